@@ -335,6 +335,16 @@ def known_class(f, case, impl, clause):
     """c04-abort-inside-open-report: the only defect is that the status written when a multi-line
     4xx/5xx reply to RCPT TO breaks off (connection lost, time-out, unparsable continuation line)
     landed inside the still open recipient report, so no message report follows an accepted recipient."""
+    if f.get('id') == 'c04-quit-write-fails-after-report':
+        # the write of the final QUIT failed: dieerror() adds its Z4.4.1 text behind the message report
+        m = re.search(r'status=([0-9a-f]+)', impl)
+        s = re.search(r'sent=(\S+)', impl)
+        if 'more-than-one-message-report' not in clause or not re.search(r' W\d+:\d+$', case) or not m:
+            return False
+        reports = [r for r in bytes.fromhex(m.group(1)).split(b'\x00') if r]
+        sent = s.group(1).split(',') if s else []
+        return len(reports) >= 2 and reports[-1].startswith(b'Z4.4.1 connection to remote server ') and reports[-2][:1] in (b'K', b'Z', b'D') \
+            and b'QUIT\r\n'.hex() not in sent
     if f.get('id') != 'c04-abort-inside-open-report' or 'message-report-missing' not in clause:
         return False
     m = re.search(r'status=([0-9a-f]+)', impl)
@@ -379,6 +389,23 @@ def run(ctx):
                 fails.append((c, ho, v))
             ctx.count('script-oracle:' + ('no-opinion' if v is None and script_oracle(c, 'exit=0 status=00') is None else 'applied'))
         vlib.handle_results(ctx, 'qremote:script-oracle', 'recipient letters and K against the server script', [], fails, known_class)
+        # a write() on the socket that fails (the peer has closed: EPIPE; reset; time-out): whatever happens, the
+        # reports must keep their shape (exit 0, a message report when a recipient was accepted ...).  Judged by the
+        # report specification alone; the model does not script write results.
+        wcases = []
+        for ext in ('none', 'pipe', 'all'):
+            for n in (1, 3):
+                base = mkcase(session(n, ext), rcpts_for(n))
+                for k in range(0, 9 + n):
+                    for e in (32, 104, 110):
+                        wcases.append(base + ' W%d:%d' % (k, e))
+        wouts = vlib.run_batch([h], [' '.join(c.split()[:9] + [c.split()[11]]) for c in wcases])
+        wp = vlib.run_batch(ctx.driver, [pred(c, o) for c, o in zip(wcases, wouts)]) if ctx.driver else []
+        wf = [(c, o, p) for c, o, p in zip(wcases, wouts, wp) if not p.startswith('holds')]
+        ctx.count('job:write-faults', len(wcases))
+        ctx.cov['evaluations'] += len(wcases)
+        ctx.cov['traces_validated_against_impl'] += len(wcases)
+        vlib.handle_results(ctx, 'qremote:write-faults', 'report specification on runs with a failing socket write', [], wf, known_class)
         vlib.differential(ctx, 'qremote-long-addresses', h, gen_long_addresses(ctx), hline=hline, corr_name=CORR)
         vlib.differential(ctx, 'qremote-enomem-in-drain', h, gen_enomem_drain(ctx), hline=hline, corr_name=CORR)
     if not ctx.quick():
